@@ -89,8 +89,10 @@ glue_node *glue_create(int kind, void *iface_ctx, const uint8_t mac[6], int with
 int glue_usable(glue_node *n) {
     if (!n) return 0;
     if (n->kind == GLUE_LEGACY && (!n->mappingAutomata || !n->sessionAutomata)) return 0;
+    /* the Darwin daemon checks none of its constructors; it survives a missing session table (every table function and the tick accept
+     * NULL), so such an interface keeps being served here too - a missing automaton would be dereferenced by the daemon's own code */
     if (n->kind == GLUE_DARWIN && (!n->mappingAutomata || !n->sessionAutomata || !n->enumerationAutomata ||
-                                   !n->sessionTable || !n->mappingAutomata->extra || !n->enumerationAutomata->extra))
+                                   !n->mappingAutomata->extra || !n->enumerationAutomata->extra))
         return 0;
     if (n->have_esp && (!n->esp.mapping || !n->esp.session || !n->esp.enumeration)) return 0;
     return 1;
